@@ -54,7 +54,7 @@ class Modes(Stage):
         text = '\n'.join(lines) + ('\n' if final_newline else '')
         data = text.encode('utf-8').replace('\ue000'.encode('utf-8'), b'\xff')
         return dict(text=text, chunks=[gen_chunks(d, data), gen_chunks(d, data)], exit=d.choice([0, 0, 1, 2, 7, 99, 127, 255, d.int(0, 255)]),
-                    argv=[d.choice(ARGS) for _ in range(d.int(0, 5))], marker=d.int(0, 9999), supress=d.chance(0.2), filter=d.choice([None, None, 'wl_display', '* ! .bind']),
+                    argv=[d.choice(ARGS) for _ in range(d.int(0, 5))] + ([d.choice(['--matcher-help', '--help', '-h', '--verbose', '-g'])] if d.chance(0.2) else []), marker=d.int(0, 9999), supress=d.chance(0.2), filter=d.choice([None, None, 'wl_display', '* ! .bind']),
                     linger=d.choice([0, 0, 0, 0, 0, 0, 0, 1.3]), libwayland=d.chance(0.2), no_stdin=d.chance(0.3), slow_pipe=d.choice([None, None, None, None, None, None, [1.4, 0.0], [0.0, 1.2], [1.3, 0.3]]), nmsg=len(specs), hashseeds=[d.int(0, 4000) for _ in range(4)], exe=d.choice([None, None, None, 'child prog', 'a "b" c', 'back\\slash', 'x y z']), brk=d.choice([None, None, None, '.sync', 'wl_registry, wl_display', '*', 'wl_display ! .sync', '.bind']), parent_wayland_debug=d.choice([None, None, '1', 'client', 'server', '0', '']))
 
     def execute(self, case):
